@@ -65,6 +65,7 @@ type RunConfig struct {
 	CoLoc       bool           `json:"coloc,omitempty"`     // SMF 1 sends from SMF 0's IP address, another port
 	Startup     *StartupPlan   `json:"startup,omitempty"` // C20: the whole input of a start-up simulation
 	DNSFlaky    int            `json:"dns_flaky_pct,omitempty"` // percent of look-ups of known names that fail (C18)
+	Overtake    bool           `json:"overtake,omitempty"` // scenarios that hold the periodic server inside a tick (holdps/releaseps)
 	Accum       bool           `json:"accum,omitempty"`   // long runs with scenarios that only matter after many repetitions
 	MidFwd      bool           `json:"mid_fwd,omitempty"` // notifications are handed to the server while the event loop is inside a turn
 	EarlyStop   bool           `json:"early_stop,omitempty"` // C17: the stop request arrives while the PFCP server is still starting
@@ -160,6 +161,10 @@ type Sim struct {
 	armed               []KRepItem
 	armedK              *KBufIntent
 	inMidFwd            bool
+	holdPS              bool                                // the next usage query of the periodic client will be held
+	heldReq             *NLReq                              // ... this one is
+	heldReg             map[time.Duration]map[RuleKey]bool // the registrations when it was made
+	heldJudge           bool                                // this step's first tick is the held one
 	timerNo             atomic.Int64
 	armedAns            *Action
 	armedStop           int
@@ -430,6 +435,17 @@ func (s *Sim) settle() {
 		if r != nil {
 			if err := s.kern.decode(r); err != nil {
 				s.harnessFail("simkernel cannot decode a request from go-upf: %v (% x)", err, r.Raw)
+			}
+			if s.holdPS && s.heldReq == nil && r.Conn == "ps" && r.Op == "multi" && !s.tearing && !s.stopped1 {
+				// action "holdps": the answer to this usage query is withheld until action
+				// "releaseps" — the periodic server stays inside its tick meanwhile, and
+				// whatever is queued for it (registration changes, further ticks) waits
+				s.heldReq = r
+				s.heldReg = s.model.registered()
+				s.holdPS = false
+				s.fired("dp.hold.ps", 1)
+				s.logEvent("ps query held")
+				continue
 			}
 			if s.armedStop > 0 && r.Conn == "main" {
 				s.armedStop--
@@ -1212,7 +1228,26 @@ func (s *Sim) runBody(actions []Action) {
 			}
 		}
 	}
+	s.releasePS()
 	s.finalChecks()
+}
+
+// releasePS answers the usage query held by "holdps" (a step of its own).
+func (s *Sim) releasePS() {
+	s.holdPS = false
+	if s.heldReq == nil || s.upfDead {
+		return
+	}
+	s.mstep("releaseps", nil, func() {
+		r := s.heldReq
+		s.heldReq = nil
+		s.heldJudge = true
+		s.bump()
+		s.kern.handle(r)
+		s.settle()
+	})
+	s.heldJudge = false
+	s.heldReg = nil
 }
 
 func (s *Sim) teardown() {
